@@ -24,11 +24,16 @@ class RecFuture(Future):
         self.ev = ev
         self.tag = tag
         self.cancel_calls = []  # (time, result)
+        self.refuse_cancels = 0  # the next n cancel() calls are refused (a delegate may not be cancellable yet)
 
     def cancel(self):
         sched.point()  # a user-supplied delegate's future: its cancel() is an interleaving point
         t = sched.now()
-        r = Future.cancel(self)
+        if self.refuse_cancels > 0:
+            self.refuse_cancels -= 1
+            r = False
+        else:
+            r = Future.cancel(self)
         self.cancel_calls.append((t, r))
         self.ev.add("cancel_call", tag=self.tag, result=r)
         return r
